@@ -168,3 +168,53 @@ Example band_solve_trichotomy_nonvacuous :   (* all three outcomes occur *)
   @band_solve AQ (@band_new AQ 2 1 1 (q 0 1)) [q 1 1; q 1 1] = Panic DivZero /\
   @band_solve AQ (@band_new AQ 2 3 0 (q 1 1)) [q 1 1; q 1 1] = Panic Index.
 Proof. repeat split; vm_compute; reflexivity. Qed.
+
+(* ---- binary64 half of the product, as far as a theorem reaches: componentwise backward error of &B * &v in the STANDARD MODEL
+   of floating-point arithmetic ([ARnd fadd fsub fmul fdiv], Proofs/TridiagRound.v: the operations are arbitrary functions on
+   the reals with fadd x y = (x + y)(1 + d), fmul x y = (x y)(1 + d), |d| <= u; no underflow/overflow -- the SAME Gallina
+   band_mul that the check runs at Qc and at the IEEE floats).  The computed product is the EXACT product ([AR]: real
+   arithmetic) of a band B' of the same sizes whose every stored entry differs from that of B by at most
+   gamma |entry|, gamma = (1 + u)^(m1 + m2 + 2) - 1 (about (m1 + m2 + 2) u): fl(B v) = (B + dB) v, |dB| <= gamma |B|, with a
+   constant that depends on the band width and NOT on n.  (A backward-error statement for the compact LU solve is not
+   proved.) ---- *)
+From Coq Require Import Reals.
+From OV Require Import Proofs.VectorR Proofs.TridiagRound Proofs.BandedDet2Round.
+Theorem band_mul_backward_error : forall (u : R), (0 <= u <= 1)%R -> forall fadd fsub fmul fdiv : R -> R -> R,
+  (forall x y : R, exists d : R, (Rabs d <= u)%R /\ fadd x y = ((x + y) * (1 + d))%R) ->
+  (forall x y : R, exists d : R, (Rabs d <= u)%R /\ fmul x y = (x * y * (1 + d))%R) ->
+  forall (B : banded (ARnd fadd fsub fmul fdiv)) (v : list R),
+  @wfB (ARnd fadd fsub fmul fdiv) B -> length v = bn B ->
+  exists B' : banded AR,
+    bn B' = bn B /\ bm1 B' = bm1 B /\ bm2 B' = bm2 B /\ @wfB AR B' /\
+    (forall i s, i < bn B -> s < bm1 B + bm2 B + 1 ->
+       (Rabs (@cslot AR B' i s - @cslot (ARnd fadd fsub fmul fdiv) B i s)
+        <= ((1 + u) ^ (bm1 B + bm2 B + 2) - 1) * Rabs (@cslot (ARnd fadd fsub fmul fdiv) B i s))%R) /\
+    @band_mul (ARnd fadd fsub fmul fdiv) B v = @band_mul AR B' v /\
+    @band_mul AR B' v = Ok (@dense_mulv AR B' v).
+Proof. intros u Hu fadd fsub fmul fdiv Hadd Hmul B v. exact (band_mul_backward_ex u Hu fadd fsub fmul fdiv Hadd Hmul B v). Qed.
+Check band_mul_backward_error : forall (u : R), (0 <= u <= 1)%R -> forall fadd fsub fmul fdiv : R -> R -> R,
+  (forall x y : R, exists d : R, (Rabs d <= u)%R /\ fadd x y = ((x + y) * (1 + d))%R) ->
+  (forall x y : R, exists d : R, (Rabs d <= u)%R /\ fmul x y = (x * y * (1 + d))%R) ->
+  forall (B : banded (ARnd fadd fsub fmul fdiv)) (v : list R),
+  @wfB (ARnd fadd fsub fmul fdiv) B -> length v = bn B ->
+  exists B' : banded AR,
+    bn B' = bn B /\ bm1 B' = bm1 B /\ bm2 B' = bm2 B /\ @wfB AR B' /\
+    (forall i s, i < bn B -> s < bm1 B + bm2 B + 1 ->
+       (Rabs (@cslot AR B' i s - @cslot (ARnd fadd fsub fmul fdiv) B i s)
+        <= ((1 + u) ^ (bm1 B + bm2 B + 2) - 1) * Rabs (@cslot (ARnd fadd fsub fmul fdiv) B i s))%R) /\
+    @band_mul (ARnd fadd fsub fmul fdiv) B v = @band_mul AR B' v /\
+    @band_mul AR B' v = Ok (@dense_mulv AR B' v).
+Print Assumptions band_mul_backward_error.
+(* non-vacuity: an inexact arithmetic in the model (every sum and product 25% too large, u = 1/2) and a well-formed band over it *)
+Example band_mul_backward_error_nonvacuous :
+  (0 <= / 2 <= 1)%R /\
+  (forall x y : R, exists d : R, (Rabs d <= / 2)%R /\ ((x + y) * (1 + / 4))%R = ((x + y) * (1 + d))%R) /\
+  (forall x y : R, exists d : R, (Rabs d <= / 2)%R /\ (x * y * (1 + / 4))%R = (x * y * (1 + d))%R) /\
+  @wfB (ARnd (fun x y => ((x + y) * (1 + / 4))%R) Rminus (fun x y => (x * y * (1 + / 4))%R) Rdiv)
+       (@band_new (ARnd (fun x y => ((x + y) * (1 + / 4))%R) Rminus (fun x y => (x * y * (1 + / 4))%R) Rdiv) 3 1 1 1%R).
+Proof.
+  split; [split; Lra.lra|].
+  assert (H : (Rabs (/ 4) <= / 2)%R) by (rewrite Rabs_pos_eq; Lra.lra).
+  split; [intros x y; exists (/ 4)%R; split; [exact H|reflexivity]|].
+  split; [intros x y; exists (/ 4)%R; split; [exact H|reflexivity]|]. apply band_new_wf.
+Qed.
